@@ -16,7 +16,9 @@ from core import Case
 from props.c13 import rand_annotation, enum_annotations, arr, F, U
 
 PID = "C12"
-LEAN_MODULES = ["MirProofs.Props.C12", "MirProofs.Props.C12_Segment", "MirProofs.Props.C12_Hierarchy"]
+LEAN_MODULES = ["MirProofs.Props.C12", "MirProofs.Props.C12_Segment", "MirProofs.Props.C12_Hierarchy",
+                "MirProofs.Props.C12_Gen"]
+TRANSLATOR_PARTS = ["chordseg"]    # harness/translate/chordseg.py -> lean/MirGen/ChordSeg.lean (Props/C12_Gen.lean: Gen = model)
 RULE = ("annotations on the 1/32 lattice; refinements cut 1-5 intervals at interior lattice points, incl. points "
         "that coincide with the other annotation's boundaries and with frame times; weights rescaled by powers "
         "of two; non-trivial = the call returns a score (no exception)")
@@ -224,12 +226,68 @@ def suite_evaluate(rng, tier, shard, nshards):
                                             "est": [[F(s), F(e)] for s, e in ei], "et": et})
 
 
+# ----------------------------------------------------------------------------------------
+# the functions as REGENERATED from the source (driver op `gen.chordseg`, lean/MirGen/ChordSeg.lean, translator part
+# `chordseg`) vs the real functions: the streams of the hand-model suites above re-targeted, plus small scopes
+
+GEN_FUNCTIONS = ("directional_hamming_distance", "overseg", "underseg", "seg", "merge_chord_intervals",
+                 "weighted_accuracy")
+
+
+def as_gen(c):
+    fn = c.op.split(".", 1)[1]
+    info = dict(c.info or {}, op="gen.chordseg", fn=fn)
+    if fn == "merge_chord_intervals":        # the generated definition takes the labels themselves (encode_many is its extern)
+        return Case("gen.chordseg", [fn, c.args[0], list(c.info["labels"])], c.call, tol=c.tol, tag="%s:%s" % (fn, c.tag),
+                    info=info, nontrivial=c.nontrivial, post=c.post)
+    return Case("gen.chordseg", [fn] + list(c.args), c.call, tol=c.tol, tag="%s:%s" % (fn, c.tag), info=info,
+                nontrivial=c.nontrivial, post=c.post)
+
+
+def suite_gen_chordseg(rng, tier, shard, nshards):
+    for name in ("segmentation", "weighted_accuracy", "merge_chord_intervals"):
+        for c in SUITES[name](rng, "quick", shard, nshards):
+            if c.op.startswith("chord.") and c.op[6:] in GEN_FUNCTIONS:
+                yield as_gen(c)
+    # merge_chord_intervals: an invalid label anywhere (InvalidChordException from the extern), runs of equal encodings
+    for labs in (["C:maj", "C", "C:maj", "N", "N", "G:7", "G:9"], ["C:maj", "nonsense", "C"], ["N"], [], ["X", "X", "N"],
+                 ["A:min7", "A:min9", "A:min7/b7"]):
+        ivs = [(Fr(k), Fr(k + 1)) for k in range(len(labs))]
+        yield Case("gen.chordseg", ["merge_chord_intervals", [[s, e] for s, e in ivs], list(labs)],
+                   lambda ivs=ivs, labs=labs: mir_eval.chord.merge_chord_intervals(arr(ivs), list(labs)),
+                   tol=0.0, tag="merge_chord_intervals:corner",
+                   info={"op": "gen.chordseg", "fn": "merge_chord_intervals", "labels": list(labs),
+                         "intervals": [[F(s), F(e)] for s, e in ivs]}, nontrivial=bool(labs))
+    # all pairs of annotations with <= 2 intervals on a 5-point lattice (valid ones), plus faulty references / estimates
+    fns = {"directional_hamming_distance": mir_eval.chord.directional_hamming_distance, "overseg": mir_eval.chord.overseg,
+           "underseg": mir_eval.chord.underseg, "seg": mir_eval.chord.seg}
+    pts = [Fr(k) for k in range(0, 5)]
+    anns = list(enum_annotations(pts, 2 if tier == "quick" else 3))
+    faulty = [[], [(Fr(1), Fr(1))], [(Fr(2), Fr(3)), (Fr(0), Fr(1))], [(Fr(0), Fr(2)), (Fr(1), Fr(3))], [(Fr(-1), Fr(1))],
+              [(Fr(3), Fr(1))]]
+    idx = 0
+    for ref in anns + faulty:
+        for est in anns + faulty:
+            idx += 1
+            if idx % nshards != shard:
+                continue
+            fn = sorted(fns)[idx % 4] if "directional_hamming_distance" in GEN_FUNCTIONS else None
+            if fn not in GEN_FUNCTIONS:
+                continue
+            yield Case("gen.chordseg", [fn, [[s, e] for s, e in ref], [[s, e] for s, e in est]],
+                       lambda fn=fn, ref=ref, est=est: fns[fn](arr(ref), arr(est)),
+                       tol=1e-9, tag="%s:small-scope" % fn,
+                       info={"op": "gen.chordseg", "fn": fn, "ref": [[F(s), F(e)] for s, e in ref],
+                             "est": [[F(s), F(e)] for s, e in est]}, nontrivial=bool(ref) and bool(est))
+
+
 SUITES = {
     "weighted_accuracy": suite_wacc,
     "merge_chord_intervals": suite_merge_chord,
     "segmentation": suite_seg,
     "score": suite_score,
     "evaluate": suite_evaluate,
+    "gen_chordseg": suite_gen_chordseg,
 }
 # stream F: the chord fixture files (real interval grids and label vocabularies)
 from suites import fixtures as _FX  # noqa: E402
@@ -437,9 +495,15 @@ def gen_lmeasure_refine(rng, tier, shard, nshards, boost):
 def check_wacc(inp):
     cs = np.array(inp["cs"], dtype=float)
     ws = np.array(inp["ws"], dtype=float)
-    base = mir_eval.chord.weighted_accuracy(cs, ws)
+    try:
+        base = mir_eval.chord.weighted_accuracy(cs, ws)
+    except Exception as e:  # noqa: BLE001 - equal lengths, no negative weight: nothing may be raised
+        return "weighted_accuracy raised %r on comparisons / non-negative weights of one length" % (e,)
     for k in inp["scales"]:
-        sc = mir_eval.chord.weighted_accuracy(cs, ws * k)
+        try:
+            sc = mir_eval.chord.weighted_accuracy(cs, ws * k)
+        except Exception as e:  # noqa: BLE001
+            return "weighted_accuracy raised %r after all weights were multiplied by %r" % (e, k)
         if not _same(base, sc, 0.0):
             return "weighted_accuracy changes from %r to %r when all weights are multiplied by %r" % (base, sc, k)
     valid = [(Fr(c), Fr(w)) for c, w in zip(inp["cs"], inp["ws"]) if c >= 0]
